@@ -7,6 +7,7 @@ backward; (2) reference-counting liveness with the cyclic GC disabled versus the
 import json
 
 import graphhist as gh
+import heapcorr
 import progs
 from common import known_findings, rng_for
 
@@ -173,6 +174,10 @@ def run(rep, work, tier, seed, props, replay=None):
         # gradients / released flags differ from the proved model: the model's values ARE the property (release + persistence rules)
         rep.violation({"kind": "gradients or creator/consumer flags after backward differ from Model/GraphP.v (release / persistence rules of Props/C07.v)",
                        "stmts": kb[k].stmts, "impl": kr[k], "n_disagreements": len(bad)})
+    # pointer-level correspondence (Model/Heap.v) with backward() statements: which tensors hold a gradient after every statement (a gradient
+    # persists until its tensor is next used by a non-view operation / updated in place), what backward() releases
+    heap_cov = heapcorr.run(rep, work, seed + 202, 2000 if tier == "thorough" else 350, 28 if tier == "thorough" else 18, replay=replay, tag="c07heap", p_fail=0.1, p_clear=0.03, p_back=0.15,
+                            label="pointer-level heap (gradient persistence and release)")
     if not props["ok"]:
         rep.violation({"kind": "proof obligations of Props/C07.v no longer check", "broken": "Props/C07.v", "log": props["log"][-1500:]},
                       no_input=not (oracle or lbad or bad or frep or leaks or rel_bad))
@@ -183,6 +188,7 @@ def run(rep, work, tier, seed, props, replay=None):
     rep.coverage.update({
         "evaluations": len(kb) + len(fcases) + len(cb) + len(rel_res),
         "operation_release_sweep": {"entries_x_kinds": len(rel_res), "survivor_messages": rel_bad},
+        "pointer_level_heap": heap_cov,
         "placeholder_census_histories": len(cb), "placeholder_census_leaks": len(leaks), "placeholder_census_histories_with_unexpected_exceptions": census_unexpected,
         "placeholder_census_statements": gh.op_histogram(cb),
         "distinct_nontrivial": len(nt),
